@@ -495,6 +495,11 @@ class Directory(object):
     def unregister_computation(self, computation: ComputationName,
                                agent: AgentName=None):
         try:
+            if agent is not None and \
+                    self._computations_data[computation] != agent:
+                # The computation has been registered on another agent since:
+                # this is a late un-publication from its previous host.
+                return
             self._computations_data.pop(computation)
             self.discovery.unregister_computation(computation)
         except (KeyError, UnknownComputation):
